@@ -533,10 +533,13 @@ fn explore_cmd(args: &[String]) -> Value {
         }
         // --- one poller iteration, with scheduling delays between its steps
         let t_first = now_ns;
+        let err_first = err_ns;
         let d1 = [0, 1_000_000, 10_000_000, 300_000_000, 2 * G][rng.gen_range(0..5)];
         advance(&mut rng, &mut now_ns, &mut err_ns, d1);
         let t_second = now_ns;
-        let err_at_reply = err_ns;
+        // chronyd's report is valid at the instant of the query: the second event in the code's order (clock
+        // read, then query), the first one if the code queries first
+        let err_at_reply = if po == "mono_first" { err_ns } else { err_first };
         let kind = rng.gen_range(0..10);
         let mut in_outage = false;
         let reply = match kind {
@@ -560,7 +563,7 @@ fn explore_cmd(args: &[String]) -> Value {
             }
         };
         if reply.is_some() {
-            last_good_ns = Some(t_second);
+            last_good_ns = Some(if po == "mono_first" { t_second } else { t_first });
         }
         if kind >= 5 && rng.gen_range(0..3) == 0 {
             // chronyd corrects the clock after reporting: the error changes sign and does not grow
